@@ -19,6 +19,9 @@ def run(tier: str) -> int:
     chk = Check("C04", tier)
     scs, n = scenarios(tier, chk, 6000 if tier == "quick" else 60000)
     scns = [{"id": f"m{i}", "layout": s["layout"], "file": s["file"], "variant": i} for i, s in enumerate(scs)]
+    # EXTENSION beyond C04's domain: a channel-02 line (time signature of one measure); rejections are observations
+    for i, sc in enumerate(scns[: (300 if tier == "quick" else 3000)]):
+        scns.append(dict(sc, id=f"x{i}", ext=True, sigs=[{"m": i % 2, "f1000": [750, 500, 1500][i % 3]}]))
     recs = pmap(drv.exec_bms, scns)
     recs += pmap(drv.exec_bundled, drv.bundled_scenarios(tier), chunk=1)
     rejects, consumed, wall = validate_traces("BMSTrace", "BMSTrace", recs, tag=f"c04-{tier}")
